@@ -1,2 +1,267 @@
+"""R09.2 / R09.3 / R09.5: which figure is compared with which limit, per-context limit tables, placeholder sizes."""
+
+import os
+import re
+import sys
+
+from .. import model, symx, dtree, linform
+from ..interp import Machine, Adt, Term, PyVec, PyIter, Panic, explore, RESULT
+from ..report import Unsupported
+
+sys.path.insert(0, os.path.join(os.path.dirname(__file__), "..", ".."))
+from spec import limits as spec  # noqa: E402
+
+FIGURES = {
+    # limit parameter -> names that must occur in the compared figure
+    "max_recursive_depth": ["tree_height"],
+    "max_script_size": ["script_size"],
+    "max_witness_items": ["max_satisfaction_witness_elements"],
+    "max_opcode_count": ["sat_op_count"],
+    "max_exec_stack_size": ["max_witness_stack_count", "max_exec_stack_count"],
+}
+
+# per context: (function, figure names, limit, error)
+CONTEXT_LIMITS = {
+    "Legacy": [("check_global_consensus_validity", ["pk_cost"], spec.MAX_SCRIPT_ELEMENT_SIZE, "MaxRedeemScriptSizeExceeded"),
+               ("check_local_consensus_validity", ["sat_op_count"], spec.MAX_OPS_PER_SCRIPT, "MaxOpCountExceeded"),
+               ("check_local_policy_validity", ["max_satisfaction_size"], spec.MAX_SCRIPTSIG_SIZE, "MaxScriptSigSizeExceeded")],
+    "Segwitv0": [("check_global_consensus_validity", ["pk_cost"], spec.MAX_SCRIPT_SIZE, "MaxWitnessScriptSizeExceeded"),
+                 ("check_global_policy_validity", ["pk_cost"], spec.MAX_STANDARD_P2WSH_SCRIPT_SIZE, "MaxWitnessScriptSizeExceeded"),
+                 ("check_local_consensus_validity", ["sat_op_count"], spec.MAX_OPS_PER_SCRIPT, "MaxOpCountExceeded"),
+                 ("check_local_policy_validity", ["max_satisfaction_witness_elements"], spec.MAX_STANDARD_P2WSH_STACK_ITEMS,
+                  "MaxWitnessItemsExceeded")],
+    "Tap": [("check_global_consensus_validity", ["pk_cost"], spec.MAX_BLOCK_WEIGHT, "MaxWitnessScriptSizeExceeded"),
+            ("check_local_consensus_validity", ["max_witness_stack_count", "max_exec_stack_count"], spec.MAX_STACK_SIZE,
+             "StackSizeLimitExceeded")],
+    "BareCtx": [("check_global_consensus_validity", ["pk_cost"], spec.MAX_SCRIPT_SIZE, "MaxBareScriptSizeExceeded"),
+                ("check_local_consensus_validity", ["sat_op_count"], spec.MAX_OPS_PER_SCRIPT, "MaxOpCountExceeded")],
+}
+
+
+def ms_value():
+    sat = Adt("miniscript::types::extra_props::SatData", "SatData",
+              {f: Term(f) for f in ("max_witness_stack_size", "max_witness_stack_count", "max_script_sig_size",
+                                    "max_exec_stack_count", "max_exec_op_count")})
+    ext = Adt("miniscript::types::extra_props::ExtData", "ExtData", {
+        "pk_cost": Term("pk_cost"), "has_free_verify": Term("hfv"), "static_ops": Term("static_ops"),
+        "sat_data": Adt("std::option::Option", "Some", {"0": sat}), "dissat_data": Term("dissat_data"),
+        "timelock_info": Term("tl"), "tree_height": Term("tree_height")})
+    return Adt(model.MS, "Miniscript", {"node": Adt(model.TERMINAL, "False"), "ty": Term("ty"), "ext": ext, "phantom": ()})
+
+
+def err_info(res):
+    """(error variant, {payload field: term}) of an Err result"""
+    e = None
+    if isinstance(res, Adt) and res.path == RESULT and res.variant == "Err":
+        e = res.fields["0"]
+    if isinstance(e, Adt):
+        return e.variant, dict(e.fields)
+    return None, {}
+
+
+def comparisons(conds):
+    """[(figure term, limit, strict)] of the true `figure > limit` decisions on a path"""
+    out = []
+    for atom, d in conds:
+        for t in flatten_and(atom):
+            if isinstance(t, Term) and t.op in ("gt", "lt") and d:
+                fig, lim = (t.args[0], t.args[1]) if t.op == "gt" else (t.args[1], t.args[0])
+                if isinstance(fig, int):
+                    continue   # a gate such as `limit < usize::MAX`, not a figure
+                out.append((fig, lim))
+    return out
+
+
+def flatten_and(t):
+    if isinstance(t, Term) and t.op == "and":
+        return flatten_and(t.args[0]) + flatten_and(t.args[1])
+    return [t]
+
+
+def names_in(t):
+    return set(re.findall(r"[a-z_]{4,}", repr(t)))
+
+
 def check_limits(chk, F):
-    pass
+    check_param_limits(chk, F)
+    check_context_limits(chk, F)
+    check_item_sizes(chk, F)
+
+
+def check_param_limits(chk, F):
+    rid = "R09.2"
+    chk.rule(rid, "validate_non_top_level compares each limit with its own figure (script size <-> max_script_size, "
+                  "witness elements <-> max_witness_items, executed ops <-> max_opcode_count, witness + exec stack <-> "
+                  "max_exec_stack_size, tree height <-> max_recursive_depth) and reports the compared figure as `actual`")
+    from . import c12
+    try:
+        vntl = F.fn("validate_non_top_level", file="miniscript/mod.rs", container="Miniscript")
+        iterp = F.fn("iter", file="miniscript/iter.rs", container="Miniscript")
+    except KeyError as e:
+        chk.fail(rid, "anchors", "missing anchor %s" % e, kind="unanalysable")
+        return
+    chk.saw(vntl)
+    where = F.fns[vntl]["span"]
+    preds = ("has_repeated_keys", "has_mixed_timelocks", "script_size", "max_satisfaction_witness_elements",
+             "sat_op_count")
+    ms = ms_value()
+    m = Machine(F, strict=False, hooks={iterp: lambda mm, a, c: PyIter([])},
+                uninterpreted=lambda p, c: c.get("name") in preds)
+    P = c12.sym_params()
+    try:
+        paths = explore(m, lambda: m.call_path(vntl, [ms, P]), max_paths=20000)
+    except Unsupported as e:
+        chk.fail(rid, "unanalysable", "unanalysable: %s" % e, where, kind="unanalysable")
+        return
+    seen = set()
+    for conds, res in paths:
+        ev, payload = err_info(res)
+        if ev is None or ev not in spec.LIMIT_ERRORS.values():
+            continue
+        field = [f for f, e in spec.LIMIT_ERRORS.items() if e == ev][0]
+        cmps = [(fig, lim) for fig, lim in comparisons(conds[-1:]) if c12.is_param(lim, field)]
+        if not cmps:
+            chk.fail(rid, "pair|" + field, "error %s is raised without comparing a figure with %s (last decision %r)"
+                     % (ev, field, conds[-1:] and conds[-1][0]), where)
+            continue
+        fig, lim = cmps[0]
+        seen.add(field)
+        need = FIGURES[field]
+        have = names_in(fig)
+        chk.obligation(rid, all(n in have for n in need), "pair|" + field,
+                       "limit %s is compared with %r; it must bound %s" % (field, fig, " + ".join(need)), where,
+                       detail={"limit": field, "figure": repr(fig)})
+        if "actual" in payload:
+            chk.obligation(rid, strip_unwrap(payload["actual"]) == strip_unwrap(fig), "actual|" + field,
+                           "%s reports actual = %r but the figure compared with the limit is %r"
+                           % (ev, payload["actual"], fig), where,
+                           detail={"error": ev, "actual": repr(payload["actual"]), "compared": repr(fig)})
+        if "limit" in payload:
+            chk.obligation(rid, payload["limit"] == lim, "limitpayload|" + field,
+                           "%s reports limit = %r, compared with %r" % (ev, payload["limit"], lim), where)
+    chk.obligation(rid, seen == set(spec.LIMIT_ERRORS), "coverage",
+                   "limits with an enforcing comparison: %s (expected %s)" % (sorted(seen), sorted(spec.LIMIT_ERRORS)), where)
+    chk.floor(rid, "limit comparisons", len(seen), 5)
+
+
+def strip_unwrap(t):
+    return t
+
+
+def check_context_limits(chk, F):
+    rid = "R09.3"
+    chk.rule(rid, "per-context resource checks compare the right figure with Bitcoin's limit for that context "
+                  "(520 / 201 / 1650 P2SH; 10000, 3600, 100, 201 P2WSH; 1000 stack, block weight Tapscript; 10000 / 201 bare)")
+    for ctx, table in CONTEXT_LIMITS.items():
+        fns = set(t[0] for t in table) | {"check_global_consensus_validity", "check_global_policy_validity",
+                                          "check_local_consensus_validity", "check_local_policy_validity"}
+        found = []
+        for fname in sorted(fns):
+            ps = [p for p in F.fn(fname, file="miniscript/context.rs", allow_many=True) if ("::%s as " % ctx) in p]
+            if not ps:
+                continue   # default implementation: no check
+            p = ps[0]
+            chk.saw(p)
+            where = F.fns[p]["span"]
+            m = Machine(F, strict=False,
+                        uninterpreted=lambda pp, c: c.get("name") in ("max_satisfaction_size", "sat_op_count",
+                                                                       "max_satisfaction_witness_elements", "to_wu"))
+            try:
+                paths = explore(m, lambda: m.call_path(p, [ms_value()]))
+            except Unsupported as e:
+                chk.fail(rid, "%s|%s|unanalysable" % (ctx, fname), "unanalysable: %s" % e, where, kind="unanalysable")
+                continue
+            for conds, res in paths:
+                ev, payload = err_info(res)
+                if ev is None or ev == "ImpossibleSatisfaction":
+                    continue
+                cmps = comparisons(conds[-1:])
+                if not cmps:
+                    chk.fail(rid, "%s|%s|%s" % (ctx, fname, ev), "%s::%s raises %s without a `figure > limit` comparison"
+                             % (ctx, fname, ev), where)
+                    continue
+                fig, lim = cmps[0]
+                limv = lim if isinstance(lim, int) else (spec.MAX_BLOCK_WEIGHT if "MAX_BLOCK" in repr(lim) or "to_wu" in repr(lim) else repr(lim))
+                found.append((fname, fig, limv, ev, payload, where))
+        for fname, need, limit, errname in table:
+            hits = [x for x in found if x[0] == fname and x[3] == errname]
+            key = "%s|%s|%s" % (ctx, fname, errname)
+            if not hits:
+                chk.fail(rid, key, "%s::%s no longer enforces %s <= %d (%s)" % (ctx, fname, "+".join(need), limit, errname),
+                         kind="violation")
+                continue
+            _, fig, limv, ev, payload, where = hits[0]
+            have = names_in(fig)
+            chk.obligation(rid, all(n in have for n in need), key + "|figure",
+                           "%s::%s compares %r with its limit; it must bound %s" % (ctx, fname, fig, " + ".join(need)), where,
+                           detail={"context": ctx, "function": fname, "figure": repr(fig)})
+            chk.obligation(rid, isinstance(limv, int) and limv <= limit, key + "|limit",
+                           "%s::%s uses the limit %r; Bitcoin's limit is %d" % (ctx, fname, limv, limit), where)
+            for k in ("actual", "got"):
+                if k in payload:
+                    chk.obligation(rid, names_in(payload[k]) >= set(need) or payload[k] == fig, key + "|actual",
+                                   "%s reports %s = %r but compares %r" % (ev, k, payload[k], fig), where)
+        extra = [x for x in found if not any(x[0] == t[0] and x[3] == t[3] for t in table)]
+        chk.obligation(rid, not extra, ctx + "|extra",
+                       "%s has limit checks the oracle does not know: %r" % (ctx, [(x[0], x[3]) for x in extra]))
+    chk.sample({"context limit table": {k: [(t[0], "+".join(t[1]), t[2]) for t in v] for k, v in CONTEXT_LIMITS.items()}})
+
+
+def check_item_sizes(chk, F):
+    rid = "R09.5"
+    chk.rule(rid, "ItemSize of every Placeholder variant = serialized size of what it stands for: sig 73 / size+1, "
+                  "hash preimage 33, `0` 1, `1` 2, key = recorded size, tap script / control block = len + varint(len)")
+    PH = "miniscript::satisfy::Placeholder"
+    try:
+        sizep = [it["path"] for i in F.impls if i["trait"] == "util::ItemSize" and i["self_adt"] == PH
+                 for it in i["items"] if it["name"] == "size"][0]
+    except IndexError:
+        chk.fail(rid, "anchor", "ItemSize for Placeholder not found", kind="unanalysable")
+        return
+    chk.saw(sizep)
+    where = F.fns[sizep]["span"]
+    want = {
+        "Pubkey": {"size": 1}, "PubkeyHash": {"size": 1}, "EcdsaSigPk": {1: 73}, "EcdsaSigPkHash": {1: 73},
+        "SchnorrSigPk": {"size": 1, 1: 1}, "SchnorrSigPkHash": {"size": 1, 1: 1},
+        "Sha256Preimage": {1: 33}, "Hash256Preimage": {1: 33}, "Ripemd160Preimage": {1: 33}, "Hash160Preimage": {1: 33},
+        "HashDissatisfaction": {1: 33}, "PushOne": {1: 2}, "PushZero": {1: 1},
+        "TapScript": {"len": 1, "varint(len)": 1}, "TapControlBlock": {"len": 1, "varint(len)": 1},
+    }
+    variants = F.adts[PH]["variants"]
+    chk.floor(rid, "Placeholder variants", len(variants), 15)
+    for v in variants:
+        name = v["name"]
+        fields = {}
+        for i, fd in enumerate(v["fields"]):
+            fields[fd["name"]] = Term("size") if fd["ty"] == "usize" else Term("data", i)
+        val = Adt(PH, name, fields)
+        m = Machine(F, strict=False, uninterpreted=lambda p, c: c.get("name") in ("varint_len", "len", "serialize"))
+        try:
+            res = explore(m, lambda: m.call_path(sizep, [val]))
+        except Unsupported as e:
+            chk.fail(rid, name + "|unanalysable", "unanalysable: %s" % e, where, kind="unanalysable")
+            continue
+        if len(res) != 1:
+            chk.fail(rid, name + "|paths", "ItemSize::size(%s): %d paths" % (name, len(res)), where, kind="unanalysable")
+            continue
+
+        def atom(t):
+            if isinstance(t, Term) and t.op == "size":
+                return "size"
+            if isinstance(t, Term) and t.op == "call":
+                nm = str(t.args[0])
+                if nm.endswith("varint_len"):
+                    return "varint(len)"
+                if nm.endswith("::len"):
+                    return "len"
+            return None
+        try:
+            got = linform.lin(res[0][1], atom)
+        except linform.NotLinear as e:
+            chk.fail(rid, name + "|form", "size is not linear: %s" % e, where, kind="unanalysable")
+            continue
+        w = want.get(name)
+        chk.obligation(rid, w is not None and got == w, name,
+                       "ItemSize of Placeholder::%s is %s, the serialized element needs %s"
+                       % (name, linform.show(got), linform.show(w) if w else "?"), where,
+                       detail={"variant": name, "size": linform.show(got)})
